@@ -537,6 +537,7 @@ fn sim_popen(e: SimExec) -> Result<SimPopen, PopenError> {
         let nth = w.popen_attempts;
         w.popen_attempts += 1;
         w.apply_peer_actions(nth);
+        w.output_closed_fault(nth);
         if let Some(errno) = w.spawn_fault(nth) {
             w.log(LogEv::Fault {
                 kind: format!("spawn_error:{}", errno),
